@@ -60,9 +60,15 @@ _reg(ProdProp('C16', ['Ea.C16.loop_iterations_bounded', 'Ea.C16.loopNC_fst', 'Ea
 
 from props_tm import TmProp  # noqa: E402
 
-_reg(TmProp('C11', ['Ea.C11.reachable_inv', 'Ea.C11.at_most_one', 'Ea.C11.tstep_inv', 'Ea.C11.fifo', 'Ea.C11.dedup_newest', 'Ea.C11.submit_inv', 'Ea.C11.doneCb_inv'], ['sequential', 'limseq', 'dedup']))
+_reg(TmProp('C11', ['Ea.C11.reachable_inv', 'Ea.C11.at_most_one', 'Ea.C11.tstep_inv', 'Ea.C11.fifo', 'Ea.C11.dedup_newest', 'Ea.C11.submit_inv', 'Ea.C11.doneCb_inv',
+                    'Ea.C11.nothing_lost_nothing_twice', 'Ea.C11.submissions_accounted', 'Ea.C11.dedup_keys_unique',
+                    'Ea.C11.started_in_submission_order', 'Ea.C11.waiting_only_behind_a_running_task', 'Ea.C11.queue_bounded',
+                    'Ea.C11.full_skip_drops_new', 'Ea.C11.full_skip_first_drops_oldest', 'Ea.C11.full_skip_last_drops_newest',
+                    'Ea.cons_reachable', 'Ea.starts_reachable', 'Ea.seq_order_reachable', 'Ea.prog_reachable'], ['sequential', 'limseq', 'dedup']))
 _reg(TmProp('C12', ['Ea.C12.bound', 'Ea.C12.skip_closes', 'Ea.C12.cancel_first_oldest', 'Ea.C12.cancel_last_newest', 'Ea.C12.slot_freed', 'Ea.C12.unbounded_starts_and_tracks',
-                    'Ea.C12.victim_cancelled_before_replacement'], ['parallel', 'limpar']))
+                    'Ea.C12.victim_cancelled_before_replacement', 'Ea.C12.every_submission_accounted',
+                    'Ea.C12.unbounded_tracks_exactly', 'Ea.C12.limiting_tracks_only_live', 'Ea.tracked_exact_reachable',
+                    'Ea.tracked_live_reachable'], ['parallel', 'limpar']))
 
 from props_filter import FilterProp  # noqa: E402
 
